@@ -155,7 +155,7 @@ h_cache_step(void)
 		int k = ref_k(vt0);
 		if (k < 0) {
 			Z.z.cache.prev = STAMP_MIN;
-			Z.z.cache.next = N ? STAMP_MIN : STAMP_MAX;
+			Z.z.cache.next = N ? Z.trs[0] : STAMP_MAX;
 			Z.z.cache.trno = 0;
 			Z.z.cache.offs = Z.ofs[Z.tys[0]];
 		} else {
@@ -174,6 +174,30 @@ h_cache_step(void)
 #if N > 0
 	CHECK(ref_zrng_p(Z.z.cache, vt), "the cache again holds the range of the instant just looked up");
 #endif
+	WITNESS();
+}
+
+/* C13(1b): two lookups on a fresh handle: whatever instant T0 was looked up
+ * first (also one before the first transition), the second answer is the
+ * table's.  The pre-state is produced by the real code, so this also guards
+ * the invariant used in h_cache_step against being too optimistic. */
+void
+h_two_step(void)
+{
+#if defined BIGTAB
+	mk_table();
+#else
+	MK_TABLE();
+#endif
+	ND(i64, vt0);
+	ND(i64, vt);
+
+	ASSUME(vt > -(1LL << 41) && vt < (1LL << 41));
+	ASSUME(vt0 > -(1LL << 41) && vt0 < (1LL << 41));
+	ASSUME(N == 0 || vt >= Z.trs[0]);
+	memset(&Z.z.cache, 0, sizeof(Z.z.cache));
+	(void)zif_local_time(&Z.z, vt0);
+	CHECK(zif_local_time(&Z.z, vt) == vt + ref_offs(vt), "same answer whatever was looked up before");
 	WITNESS();
 }
 
